@@ -7,6 +7,8 @@ package main
 import (
 	"errors"
 	"fmt"
+	"reflect"
+	"runtime"
 	"sort"
 	"strings"
 
@@ -27,6 +29,7 @@ type taskSpec struct {
 	pin    int
 	yields int
 	panics any
+	goexit bool // the task ends by terminating its goroutine (runtime.Goexit, t.FailNow inside a task)
 }
 
 type push struct{ task, lane int }
@@ -38,6 +41,7 @@ type spec struct {
 	cancel     string // "", "cancel", "expire"
 	latePush   bool   // canceller pushes one more task after cancelling
 	wait       bool   // main calls Wait and marks its return
+	waiters    int    // additional goroutines calling Wait
 	polls      int    // Status() calls by each poller thread
 	pollers    int    // number of poller threads (default 1 when polls > 0)
 	release    bool   // a releaser thread releases pinUntilRelease tasks
@@ -60,6 +64,7 @@ type harness struct {
 	lateDone bool
 	lateTask *task
 	prod     []*vsched.Thread
+	waiterT  []*vsched.Thread
 	mainPushed bool
 	releaseC *vsched.Chan[struct{}]
 	foreverC *vsched.Chan[struct{}]
@@ -104,11 +109,22 @@ func (t *task) Start() {
 	if t.sp.panics != nil {
 		panic(t.sp.panics)
 	}
+	if t.sp.goexit {
+		runtime.Goexit()
+	}
 }
 
 var errBoom = errors.New("boom-error")
 
 type boomStruct struct{ a, b int }
+
+// uncomparable: comparing two values of this type with == panics at run time
+type boomSlice struct {
+	msg  string
+	path []string
+}
+
+func (b boomSlice) Error() string { return b.msg }
 
 func body(sp *spec) func(c *vsched.Ctx) {
 	return func(c *vsched.Ctx) {
@@ -188,13 +204,16 @@ func body(sp *spec) func(c *vsched.Ctx) {
 				}
 				// a report is a snapshot: it must not change after it was returned
 				vsched.Yield("poller-keeps-report")
-				if first != nil && (first.PendingTask != firstCopy.PendingTask || first.LastPanic != firstCopy.LastPanic) {
+				if first != nil && (first.PendingTask != firstCopy.PendingTask || !reflect.DeepEqual(first.LastPanic, firstCopy.LastPanic)) {
 					vsched.Fail(fmt.Sprintf("C14: a report returned by Status() changed afterwards: PendingTask %d -> %d, LastPanic %v -> %v", firstCopy.PendingTask, first.PendingTask, firstCopy.LastPanic, first.LastPanic))
 				}
 			})
 		}
 		if sp.release {
 			vsched.GoNamed("releaser", func() { h.releaseC.Close() })
+		}
+		for wi := 0; wi < sp.waiters; wi++ {
+			h.waiterT = append(h.waiterT, vsched.GoNamed(fmt.Sprintf("waiter%d", wi), func() { h.tl.Wait() }))
 		}
 		c.OnEnd(func() string { return h.atEnd(c) })
 		if inline {
@@ -317,7 +336,7 @@ func (h *harness) atEnd(c *vsched.Ctx) string {
 	} else {
 		ok := false
 		for _, p := range panicked {
-			if p == st.LastPanic {
+			if reflect.DeepEqual(p, st.LastPanic) {
 				ok = true
 			}
 		}
@@ -334,7 +353,11 @@ func (h *harness) atEnd(c *vsched.Ctx) string {
 	}
 	if !cancelled {
 		// C14/C06: workers survive panics
-		if laneAlive != len(h.lane) {
+		anyGoexit := false
+		for _, t := range h.tasks {
+			anyGoexit = anyGoexit || (t.sp.goexit && t.exits > 0)
+		}
+		if laneAlive != len(h.lane) && !anyGoexit {
 			return fmt.Sprintf("C14: %d of the lane's %d goroutines ended although the context is live", len(h.lane)-laneAlive, len(h.lane))
 		}
 		// C06 + C08: at rest with a live context a task may only still be waiting if every worker is occupied for ever
@@ -367,6 +390,11 @@ func (h *harness) atEnd(c *vsched.Ctx) string {
 			}
 			if sp.wait && !h.waitRet {
 				return "C07: Wait() has not returned although the context ended and every started task returned"
+			}
+			for i, w := range h.waiterT {
+				if !w.Done() {
+					return fmt.Sprintf("C07: Wait() called from goroutine waiter%d has not returned although the context ended and every started task returned (%s)", i, w.PendingOp())
+				}
 			}
 		}
 		lab = append(lab, fmt.Sprintf("cancelled;wait=%v;alive=%d", h.waitRet, laneAlive))
@@ -401,6 +429,38 @@ func main() {
 	s7c := &spec{L: 1, Q: 0, tasks: []taskSpec{{panics: "boom"}, {panics: errBoom}}, producers: [][]push{{{0, 0}, {1, 0}}}, polls: 2, pollers: 2}
 	s9 := &spec{L: 1, Q: 1, tasks: []taskSpec{{panics: "boom"}, {yields: 1}, {yields: 1}}, producers: [][]push{{{0, 0}, {1, 0}, {2, 0}}}, monitorRun: true}
 	s9b := &spec{L: 2, Q: 1, tasks: []taskSpec{{panics: 42}, {yields: 1}, {yields: 1}, {yields: 1}}, producers: [][]push{{{0, 0}, {1, 0}, {2, 1}, {3, 0}}}, monitorRun: true}
+	us := boomSlice{"uncomparable", []string{"a", "b"}}
+	s7d := &spec{L: 1, Q: 1, tasks: []taskSpec{{panics: us}, {}, {panics: us}}, producers: [][]push{{{0, 0}, {1, 0}, {2, 0}}}, polls: 1}
+	// wide but shallow: sizes at which a per-lane bitmask, a grouping of lanes or a small fixed array would break
+	wide := func(L int, probes int, probeLane int) *spec {
+		sp := &spec{L: L, Q: 1}
+		var pl []push
+		for i := 0; i < L; i++ {
+			sp.tasks = append(sp.tasks, taskSpec{pin: pinForever})
+			pl = append(pl, push{i, i})
+		}
+		for i := 0; i < probes; i++ {
+			sp.tasks = append(sp.tasks, taskSpec{})
+			pl = append(pl, push{L + i, probeLane})
+		}
+		sp.producers = [][]push{pl}
+		return sp
+	}
+	s10 := wide(65, 2, 64) // every worker pinned, two tasks waiting on the last lane: the pending count must be 2
+	s12 := &spec{L: 9, Q: 1, monitorRun: true}
+	{
+		var pl []push
+		for i := 0; i < 8; i++ {
+			s12.tasks = append(s12.tasks, taskSpec{pin: pinForever})
+			pl = append(pl, push{i, 0})
+		}
+		s12.tasks = append(s12.tasks, taskSpec{})
+		pl = append(pl, push{8, 0}) // everything to lane 0: the ninth worker must take the probe
+		s12.producers = [][]push{pl}
+	}
+	s13 := &spec{L: 2, Q: 2, tasks: []taskSpec{{yields: 1}, {yields: 1}, {yields: 1}, {pin: pinForever}, {}}, producers: [][]push{{{0, 0}, {1, 1}, {2, 0}, {3, 0}, {4, 1}}}, monitorRun: true}
+	s14 := &spec{L: 1, Q: 1, tasks: []taskSpec{{pin: pinUntilRelease}, {}, {}}, producers: [][]push{{{0, 0}, {1, 0}, {2, 0}}}, cancel: "cancel", wait: true, waiters: 1, release: true}
+	s15 := &spec{L: 2, Q: 1, tasks: []taskSpec{{goexit: true}, {yields: 1}}, producers: [][]push{{{0, 0}, {1, 1}}}, cancel: "cancel", wait: true}
 	s8 := &spec{L: 2, Q: 1, tasks: []taskSpec{{pin: pinForever}, {pin: pinForever}, {}, {}, {}}, producers: [][]push{{{0, 0}, {1, 1}, {2, 0}, {3, 1}, {4, 0}}}, polls: 1}
 
 	P := func(b ...int) sdrive.Plan { return sdrive.Plan{Bounds: b} }          // preemption bounds, in-process
@@ -441,11 +501,23 @@ func main() {
 		{Name: "s7b-L1Q1-panics", Props: []string{"C14"}, About: "one worker, panic / normal / panic, Status polled twice",
 			Quick: PS(8, b012...), Thorough: PS(16, unb...), Body: body(s7b)},
 		{Name: "s7c-L1Q0-two-pollers", Props: []string{"C14"}, About: "two tasks panicking with different dynamic types, two goroutines polling Status() twice each and keeping their first report",
-			Quick: PS(8, b012...), Thorough: PS(16, unb...), Body: body(s7c)},
+			Quick: D(0, 1, 2, 3, 4), Thorough: PS(16, b012...), Body: body(s7c)},
 		{Name: "s9-L1Q1-panic-then-load", Props: []string{"C08", "C14"}, About: "a task panics, then more tasks than workers are pending: still at most laneSize run at once",
 			Quick: P(unb...), Body: body(s9)},
 		{Name: "s9b-L2Q1-panic-then-load", Props: []string{"C08"}, About: "as s9 with two lanes",
 			Quick: D(0, 1, 2, 3), Thorough: DS(16, 0, 2, 4, 6), Body: body(s9b)},
+		{Name: "s7d-L1Q1-uncomparable-panics", Props: []string{"C14"}, About: "the same uncomparable panic value (a struct holding a slice) twice on one worker, with a normal task in between",
+			Quick: PS(8, b012...), Thorough: PS(16, unb...), Body: body(s7d)},
+		{Name: "s10-L65Q1-wide", Props: []string{"C14"}, About: "wide but shallow: 65 lanes, every worker pinned, two tasks waiting on lane 64; the pending count is compared exactly",
+			Quick: sdrive.Plan{Delay: true, Wide: true, Bounds: []int{0}}, Thorough: sdrive.Plan{Delay: true, Wide: true, Bounds: []int{0, 1}}, Body: body(s10)},
+		{Name: "s12-L9Q1-wide", Props: []string{"C08"}, About: "wide but shallow: 9 lanes, 8 never-ending tasks and a probe all pushed to lane 0: the ninth worker must run the probe",
+			Quick: sdrive.Plan{Delay: true, Wide: true, Bounds: []int{0, 1}}, Thorough: sdrive.Plan{Delay: true, Wide: true, Bounds: []int{0, 1, 2}}, Body: body(s12)},
+		{Name: "s13-L2Q2-backlog-then-other-lane", Props: []string{"C08"}, About: "lane 0 gets a backlog that other workers help to drain, its last task never returns; then a task for lane 1 arrives: an idle worker must take it",
+			Quick: D(0, 1, 2, 3), Thorough: PS(16, 0, 1, 2, 3), Body: body(s13)},
+		{Name: "s14-L1Q1-two-waiters", Props: []string{"C07"}, About: "two goroutines in Wait, three tasks on the lane at cancel (running, held, buffered)",
+			Quick: PS(8, b012...), Thorough: PS(16, unb...), Body: body(s14), MinOutcomes: 2},
+		{Name: "s15-L2Q1-goexit-task", Props: []string{"C07"}, About: "a task ends by terminating its goroutine (runtime.Goexit); cancel; Wait must still return",
+			Quick: D(0, 1, 2, 3, 4), Thorough: PS(16, b012...), Body: body(s15), MinOutcomes: 2},
 		{Name: "s8-L2Q1-stable", Props: []string{"C14"}, About: "both workers pinned, three tasks queued: pending count compared exactly at rest",
 			Quick: D(0, 1, 2, 3), Thorough: DS(16, 0, 2, 4, 6, 8), Body: body(s8)},
 	}
